@@ -68,7 +68,6 @@ func (p *CPU) StepRun(bus *device.Bus) error {
 func (p *CPU) execInst(bus *device.Bus, as abi.As, arg *abi.AsRawArgument) error {
 	// 重置0寄存器
 	p.RegX[0] = 0
-	p.RegF[0] = 0
 
 	// 当前的PC
 	curPC := p.PC
